@@ -125,13 +125,13 @@ def run(chk, snap, drv):
             reproduced[fn] = reproduced.get(fn, True) and (b == a)
         elif b != a:
             drift.setdefault(fn, []).append((nd, kind, line, a, b))
-    for fn, l in c_bad.items():
+    for fn, l in list(c_bad.items())[:4]:
         nd, kind, line, a, ref = l[0]
         chk.violation('simd_gen_%s_nd%d' % (fn, nd),
                       'raid_%s (nd=%d, %s data) does not compute the GF(2^8) matrix product: got %s...%s' %
                       (fn, nd, kind, a[:40], ' [its proof obligation checker=true also fails]' if 'raid_' + fn in simd['rejected'] else ''),
                       {'driver': 'harness/c/raid_drv.c', 'case_line': line, 'got': a, 'expected': ref, 'failing_cases': len(l)})
-    for fn, l in drift.items():
+    for fn, l in list(drift.items())[:4]:
         nd, kind, line, a, b = l[0]
         chk.violation('simd_drift_%s_nd%d' % (fn, nd),
                       'MODEL-DRIFT: the program translated from raid_%s, run by the extracted byte-lane interpreter, disagrees with the '
